@@ -99,6 +99,8 @@ type jStore struct {
 	Reads []int  `json:"reads,omitempty"`
 	W     int    `json:"w,omitempty"`
 	Base  int    `json:"base,omitempty"`
+	TS    int    `json:"ts,omitempty"` // "tadapter": index into tstores
+	At    *int64 `json:"at,omitempty"` // "tadapter": pinned instant (Unix ns), nil = unpinned
 }
 type jOp struct {
 	S    int    `json:"s"`
@@ -107,12 +109,16 @@ type jOp struct {
 	Sym  int    `json:"sym,omitempty"`
 	Args []*int `json:"args,omitempty"`
 	From int    `json:"from,omitempty"`
+	TS   int    `json:"ts,omitempty"` // "tadd": temporal store written directly
+	Lo   *int64 `json:"lo,omitempty"` // "tadd": interval bounds, nil = unbounded
+	Hi   *int64 `json:"hi,omitempty"`
 }
 type jCase struct {
-	Consts []jConst `json:"consts"`
-	Atoms  []jAtom  `json:"atoms"`
-	Stores []jStore `json:"stores"`
-	Ops    []jOp    `json:"ops"`
+	Consts  []jConst  `json:"consts"`
+	Atoms   []jAtom   `json:"atoms"`
+	Stores  []jStore  `json:"stores"`
+	TStores []jTStore `json:"tstores,omitempty"` // adapter configurations (adapter.go)
+	Ops     []jOp     `json:"ops"`
 }
 type jOut struct {
 	AHash []uint64 `json:"ahash"`
@@ -177,6 +183,10 @@ func runC06(in json.RawMessage) (any, error) {
 		}
 		return "foreign:" + a.String()
 	}
+	tstores, err := mkTStores(c.TStores)
+	if err != nil {
+		return nil, err
+	}
 	stores := make([]factstore.FactStore, len(c.Stores))
 	for i, d := range c.Stores {
 		switch d.K {
@@ -190,6 +200,12 @@ func runC06(in json.RawMessage) (any, error) {
 			stores[i] = factstore.NewMultiIndexedArrayInMemoryStore()
 		case "temporal":
 			stores[i] = factstore.NewTemporalFactStoreAdapter(factstore.NewTemporalStore())
+		case "tadapter":
+			ad, err := mkAdapter(tstores, d.TS, d.At)
+			if err != nil {
+				return nil, err
+			}
+			stores[i] = ad
 		case "merged":
 			var rs []factstore.ReadOnlyFactStore
 			for _, r := range d.Reads {
@@ -209,6 +225,14 @@ func runC06(in json.RawMessage) (any, error) {
 		}
 	}
 	for _, o := range c.Ops {
+		if o.Op == "tadd" {
+			r, err := tAdd(tstores, o.TS, atoms[o.A], o.Lo, o.Hi)
+			if err != nil {
+				return nil, err
+			}
+			out.Res = append(out.Res, r)
+			continue
+		}
 		st := stores[o.S]
 		switch o.Op {
 		case "add":
